@@ -571,18 +571,22 @@ pub fn run_prop<S>(
     let mut rep = rep.into_inner();
     match result {
         Ok(()) => {}
-        Err(TestError::Fail(_, minimal)) => {
+        Err(TestError::Fail(reason, minimal)) => {
             // re-run on the minimal value to obtain its violation record
             rep.freeze();
-            let res = (check_cell.borrow_mut())(&minimal, &mut rep);
-            let viol = match res {
-                Err(v) => v,
-                Ok(()) => last_violation.borrow_mut().take().unwrap_or_else(|| {
-                    Violation::new("unknown", "unknown/unstable", "failure did not reproduce on the minimal case", json!(format!("{minimal:?}")))
-                }),
-            };
+            let res = guard(|| (check_cell.borrow_mut())(&minimal, &mut rep));
             rep.unfreeze();
-            rep.violation(viol);
+            match res {
+                Ok(Err(v)) => rep.violation(v),
+                Ok(Ok(())) => match last_violation.borrow_mut().take() {
+                    // a real violation was observed but the shrunk case does not show it
+                    // again (timing-dependent): report the last observed one
+                    Some(v) => rep.violation(v),
+                    // the check closure itself panicked: a fault of the harness, never a violation
+                    None => rep.infra_errors.push(format!("harness fault inside the property closure ({reason}); last panic: {}", take_last_panic())),
+                },
+                Err(pm) => rep.infra_errors.push(format!("harness fault inside the property closure: {pm} ({reason})")),
+            }
         }
         Err(TestError::Abort(reason)) => {
             rep.infra_errors.push(format!("proptest aborted: {reason}"));
